@@ -455,15 +455,21 @@ func (r *verifLoopRun) tick() {
 		verifTickC <- time.Time{}
 		return
 	}
-	if r.ticks > verifNativeTickBudget {
-		// nsqd's heartbeat ticker is real (15 s) and a native replay runs under go test's 60 s
-		// timeout: a scenario with more heartbeats cannot finish. End it at once (the engine
-		// then turns to the next counterexample of the same assertion) instead of running
-		// into the timeout.
-		println("VERIF-NOTE native replay abandoned: it needs more than", verifNativeTickBudget, "heartbeats of 15 s")
-		verifrt.Done()
-	}
+	r.nativeTickBudget(0)
 	time.Sleep(time.Until(r.t0.Add(time.Duration(r.ticks)*15*time.Second + 400*time.Millisecond)))
+}
+
+// nativeTickBudget (native replay only): nsqd's heartbeat ticker is real (15 s) and a native
+// replay runs under go test's 60 s timeout, so a scenario that needs more than
+// verifNativeTickBudget heartbeats cannot finish. End it as soon as that is known (the engine
+// then turns to the next counterexample of the same assertion) instead of running into the
+// timeout. `more`: heartbeats still to come after the one counted last.
+func (r *verifLoopRun) nativeTickBudget(more int) {
+	if verifrt.Symbolic() || r.ticks+more <= verifNativeTickBudget {
+		return
+	}
+	println("VERIF-NOTE native replay abandoned: it needs more than", verifNativeTickBudget, "heartbeats of 15 s")
+	verifrt.Done()
 }
 
 func (r *verifLoopRun) peers() []*lookupPeer {
@@ -553,6 +559,9 @@ func (r *verifLoopRun) finish() {
 	// faults stop; two heartbeats later every reachable lookupd is in sync
 	r.w.budget = 0
 	needHeartbeats := r.w.hits > 0
+	if needHeartbeats {
+		r.nativeTickBudget(2)
+	}
 	for i := 0; needHeartbeats && i < 2; i++ {
 		r.w.beginStep()
 		r.tick()
@@ -627,9 +636,11 @@ func verifC16LoopFaults() {
 	}
 	hits := r.w.hits
 	verifrt.Reach("a-no-fault-struck", hits == 0 && r.ticks == 0)
-	verifrt.Reach("fault-then-converged", hits > 0 && r.topicDeletes == 0)
+	// (witnesses that may be replayed natively: no topic deletion - see topicDeletes - and at most
+	// one heartbeat besides the two of finish - see nativeTickBudget)
+	verifrt.Reach("fault-then-converged", hits > 0 && r.topicDeletes == 0 && r.ticks <= 1)
 	r.finish()
-	verifrt.Reach("connection-reset-then-converged", r.w.rsts > 0 && r.topicDeletes == 0)
+	verifrt.Reach("connection-reset-then-converged", r.w.rsts > 0 && r.topicDeletes == 0 && r.ticks <= 3)
 	verifrt.Observe("faults", hits)
 }
 
@@ -718,7 +729,7 @@ func verifC16LoopTwoPeers() {
 	}
 	verifrt.Assert(untouched >= 1, "one-fault-touches-one-lookupd")
 	verifrt.Reach("a-both-healthy", r.w.hits == 0 && untouched == 2 && r.ticks == 0)
-	verifrt.Reach("one-failing-one-healthy", r.w.hits > 0 && untouched == 1 && r.topicDeletes == 0)
+	verifrt.Reach("one-failing-one-healthy", r.w.hits > 0 && untouched == 1 && r.topicDeletes == 0 && r.ticks <= 1)
 	r.finish()
 }
 
